@@ -64,6 +64,11 @@ def main(argv):
         inj, inc, got = C19_acc.inject(c[1], c[2], c[4], c[3], d["state"], d["injected"])
         bad = [(x, i, g) for x, i, g in zip(inj, inc, got) if g != x + i]
         res = f"injected/increment/observed {bad[:3]}" if bad else None
+    elif chk == "inject-and-merge":
+        from .parts import C19_acc
+        c = _case(d["class"])
+        inj, got = C19_acc.inject_merge(c[1], c[2], c[4], c[3], d["state"], d["merged_values"])
+        res = f"merged {inj} -> observed {got[0]}, expected {sum(inj)}" if any(g != sum(inj) for g in got) else None
     elif chk == "history":
         from .catalogue import entry
         from . import history
